@@ -17,6 +17,9 @@ def ratSqrt? (q : Rat) : Option Rat :=
 
 def rootOf (A : Aff) : Option Rat := ratSqrt? (A.a * A.a + A.d * A.d)
 
+/-- `reprojectNonlinear` builds its regions from `roiBoundary · 5` -/
+def srcSamplesCount (dst : Shape) : Nat := (roiBoundary (⟨0, dst.1⟩, ⟨0, dst.2⟩) 5).length
+
 def fmtPlan (p : Plan) : String :=
   s!"{fmtROI p.roiSrc} {fmtROI p.roiDst} {fmtBool p.pasteOk} {p.readShrink} {fmtRat p.scale} {fmtRat p.scale2.1} {fmtRat p.scale2.2}"
 
@@ -71,6 +74,10 @@ def run (args : List String) : Option String :=
       | .ok A =>
         let r := relativeRois (sny, snx) (dny, dnx) (linTr A) (linTr fwd) pps pad al
         pure s!"{fmtROI r.1} {fmtROI r.2}"
+  | ["nlsamples", dny, dnx] => do
+    -- number of boundary samples the cross-CRS branch (`pts_per_side = 5`) hands to `roi_from_points`
+    let dny ← parseInt? dny; let dnx ← parseInt? dnx
+    pure (toString (srcSamplesCount (dny, dnx)))
   | _ => none
 
 end OdcGeo.C03.Drv
